@@ -344,7 +344,7 @@ Example C14_heap_nonvacuous :
      view shows: written after a reset, the view still is the stored array *)
   hparams_ok in_place /\
   hread_after in_place src g11 [HRead RkArray; HReset; HWrite (HRes 0) [[5]]] = OArr [[5]] /\
-  hread_after hsrc src g11 [HRead RkArray; HReset; HWrite (HRes 0) [[5]]] = OArr [[0]].
+  hread_after std_hparams src g11 [HRead RkArray; HReset; HWrite (HRes 0) [[5]]] = OArr [[0]].
 Proof.
   repeat match goal with |- _ /\ _ => split end; try (vm_compute; reflexivity); try exact std_hparams_ok.
   intros [Hn _]. apply Hn. reflexivity.
